@@ -348,6 +348,30 @@ def _desugar_lazy(f, bi, t, lz, x, c, clo, cpath):
     _splice(f, b_call, clo)
 
 
+_NEXT_FNS = {}
+
+
+def _next_fn(fns, ity, iadt):
+    """The `fn` record of `<ity as Iterator>::next`, copied from a call of it anywhere in the crate when there is one."""
+    if not _NEXT_FNS.get("__scanned__") :
+        _NEXT_FNS["__scanned__"] = True
+        for g in fns.values():
+            for blk in g["body"]["blocks"]:
+                tt = blk["term"]
+                if tt["k"] == "call" and isinstance(tt.get("func"), dict) and "const" in tt["func"]:
+                    fn = tt["func"]["const"].get("fn")
+                    if fn and fn.get("orig") == "core::iter::traits::iterator::Iterator::next" and fn.get("self_adt"):
+                        _NEXT_FNS.setdefault(fn["self_adt"], fn)
+    got = _NEXT_FNS.get(iadt)
+    if got is not None:
+        got = copy.deepcopy(got)
+        got["self_ty"] = ity
+        got["args"] = [ity]
+        return got
+    return {"orig": "core::iter::traits::iterator::Iterator::next", "args": [ity], "trait": "core::iter::traits::iterator::Iterator", "self_ty": ity, "self_adt": iadt,
+            "rkind": "item", "path": "<%s as core::iter::traits::iterator::Iterator>::next" % (_short(ity) if iadt is None else iadt + "<I>"), "local": False, "krate": "core", "impl_adt": iadt, "impl_self": ity}
+
+
 def desugar_combinators(f, fns, rounds=6):
     """`o.is_some_and(|v| p(v))`, `o.map(|v| g(v))`, `o.and_then(|v| g(v))`, `r.is_ok_and(..)` with a closure literal
     built in the same function are read as the `match` they abbreviate, the closure's body spliced into the arm:
@@ -399,6 +423,98 @@ def desugar_combinators(f, fns, rounds=6):
                         todo = "again"
                         break
                 continue
+            if sp_ == "core::iter::traits::iterator::Iterator::for_each" and len(t["args"]) == 2:
+                # `it.for_each(|x| body)` = `for x in it { body }`: the loop the adapter abbreviates, the closure's body
+                # spliced in as the loop body
+                x = t["args"][0].get("move") or t["args"][0].get("copy")
+                c = t["args"][1].get("move") or t["args"][1].get("copy")
+                if x is None or c is None or x["p"] or c["p"] or ndefs.get(c["l"]) != 1 or c["l"] not in cdef or cdef[c["l"]] not in fns:
+                    continue
+                clo = fns[cdef[c["l"]]]
+                if clo["body"]["arg_count"] != 2:
+                    continue
+                L = body["locals"]
+                s_ = t["s"]
+                OPT = "core::option::Option"
+                ity, iadt = L[x["l"]]["ty"], L[x["l"]].get("adt")
+                item_ty = clo["body"]["locals"][2]["ty"]
+                by_ref = clo["body"]["locals"][1]["ty"].startswith("&")
+                nfn = _next_fn(fns, ity, iadt)
+                r_loc, o_loc, d_loc, u_loc, cr_loc = len(L), len(L) + 1, len(L) + 2, len(L) + 3, len(L) + 4
+                L.append({"ty": "&mut " + ity, "adt": iadt})
+                L.append({"ty": "core::option::Option<%s>" % item_ty, "adt": OPT})
+                L.append({"ty": "isize", "adt": None})
+                L.append({"ty": "()", "adt": None})
+                L.append(copy.deepcopy(clo["body"]["locals"][1]))
+                nb = len(B)
+                b_head, b_sw, b_body, b_unreach = nb, nb + 1, nb + 2, nb + 3
+                sd, nd = ENUM_DISCR[(OPT, "Some")], ENUM_DISCR[(OPT, "None")]
+                B.append({"cleanup": False, "stmts": [{"k": "assign", "place": {"l": r_loc, "p": []}, "rv": {"ref": {"l": x["l"], "p": []}, "mut": True}, "s": s_}],
+                          "term": {"k": "call", "func": {"const": {"ty": "fn", "fn": nfn}}, "args": [{"move": {"l": r_loc, "p": []}}], "dest": {"l": o_loc, "p": []},
+                                   "target": b_sw, "unwind": t.get("unwind"), "s": s_}})
+                B.append({"cleanup": False, "stmts": [{"k": "assign", "place": {"l": d_loc, "p": []}, "rv": {"discr": {"l": o_loc, "p": []}, "adt": OPT}, "s": s_}],
+                          "term": {"k": "switch", "op": {"move": {"l": d_loc, "p": []}}, "ty": "isize", "targets": [[nd, t["target"]], [sd, b_body]], "otherwise": b_unreach, "s": s_}})
+                self_arg = {"move": {"l": cr_loc, "p": []}} if by_ref else {"copy": {"l": c["l"], "p": []}}
+                pre = [{"k": "assign", "place": {"l": cr_loc, "p": []}, "rv": {"ref": {"l": c["l"], "p": []}, "mut": True}, "s": s_}] if by_ref else []
+                B.append({"cleanup": False, "stmts": pre,
+                          "term": {"k": "call", "func": {"const": {"ty": "closure", "fn": {"path": cdef[c["l"]], "local": True, "orig": cdef[c["l"]]}}},
+                                   "args": [self_arg, {"move": {"l": o_loc, "p": [{"downcast": "Some", "vi": sd}, {"f": 0, "n": "0", "adt": OPT, "v": "Some"}]}}],
+                                   "dest": {"l": u_loc, "p": []}, "target": b_head, "unwind": t.get("unwind"), "s": s_}})
+                B.append({"cleanup": False, "stmts": [], "term": {"k": "unreachable", "s": s_}})
+                b["term"] = {"k": "goto", "target": b_head, "s": s_}
+                _splice(f, b_body, clo)
+                SPLICED_CLOSURES.add(cdef[c["l"]])
+                done += 1
+                todo = "again"
+                break
+            if sp_ == "core::bool::then_some" and len(t["args"]) == 2:
+                # `c.then_some(v)` = if c { Some(v) } else { None }  (v is already evaluated)
+                x = t["args"][0].get("move") or t["args"][0].get("copy")
+                if x is None or x["p"]:
+                    continue
+                OPT = "core::option::Option"
+                s_ = t["s"]
+                nb = len(B)
+                dest, target = t["dest"], t["target"]
+                B.append({"cleanup": False, "stmts": [{"k": "assign", "place": copy.deepcopy(dest), "rv": {"agg": "adt", "adt": OPT, "variant": "None", "fields": [], "ops": []}, "s": s_}],
+                          "term": {"k": "goto", "target": target, "s": s_}})
+                B.append({"cleanup": False, "stmts": [{"k": "assign", "place": copy.deepcopy(dest), "rv": {"agg": "adt", "adt": OPT, "variant": "Some", "fields": ["0"], "ops": [copy.deepcopy(t["args"][1])]}, "s": s_}],
+                          "term": {"k": "goto", "target": target, "s": s_}})
+                b["term"] = {"k": "switch", "op": {"copy": {"l": x["l"], "p": []}}, "ty": "bool", "targets": [[0, nb]], "otherwise": nb + 1, "s": s_}
+                done += 1
+                todo = "again"
+                break
+            if sp_ == "core::option::Option::zip" and len(t["args"]) == 2:
+                # `a.zip(b)` = match a { Some(x) => match b { Some(y) => Some((x, y)), None => None }, None => None }
+                x = t["args"][0].get("move") or t["args"][0].get("copy")
+                y = t["args"][1].get("move") or t["args"][1].get("copy")
+                dty = body["locals"][t["dest"]["l"]]["ty"] if not t["dest"]["p"] else ""
+                if x is None or y is None or x["p"] or y["p"] or not (dty.startswith("core::option::Option<(") and dty.endswith(")>")):
+                    continue
+                L = body["locals"]
+                OPT = "core::option::Option"
+                s_ = t["s"]
+                d1, d2, tup = len(L), len(L) + 1, len(L) + 2
+                L.append({"ty": "isize", "adt": None}); L.append({"ty": "isize", "adt": None})
+                L.append({"ty": dty[len("core::option::Option<"):-1], "adt": None})
+                nb = len(B)
+                b_none, b_second, b_some, b_unreach = nb, nb + 1, nb + 2, nb + 3
+                dest, target = t["dest"], t["target"]
+                sd, nd = ENUM_DISCR[(OPT, "Some")], ENUM_DISCR[(OPT, "None")]
+                pay = lambda o: {"move": {"l": o["l"], "p": [{"downcast": "Some", "vi": sd}, {"f": 0, "n": "0", "adt": OPT, "v": "Some"}]}}
+                B.append({"cleanup": False, "stmts": [{"k": "assign", "place": copy.deepcopy(dest), "rv": {"agg": "adt", "adt": OPT, "variant": "None", "fields": [], "ops": []}, "s": s_}],
+                          "term": {"k": "goto", "target": target, "s": s_}})
+                B.append({"cleanup": False, "stmts": [{"k": "assign", "place": {"l": d2, "p": []}, "rv": {"discr": {"l": y["l"], "p": []}, "adt": OPT}, "s": s_}],
+                          "term": {"k": "switch", "op": {"move": {"l": d2, "p": []}}, "ty": "isize", "targets": [[nd, b_none], [sd, b_some]], "otherwise": b_unreach, "s": s_}})
+                B.append({"cleanup": False, "stmts": [{"k": "assign", "place": {"l": tup, "p": []}, "rv": {"agg": "tuple", "ops": [pay(x), pay(y)]}, "s": s_},
+                                                      {"k": "assign", "place": copy.deepcopy(dest), "rv": {"agg": "adt", "adt": OPT, "variant": "Some", "fields": ["0"], "ops": [{"move": {"l": tup, "p": []}}]}, "s": s_}],
+                          "term": {"k": "goto", "target": target, "s": s_}})
+                B.append({"cleanup": False, "stmts": [], "term": {"k": "unreachable", "s": s_}})
+                b["stmts"].append({"k": "assign", "place": {"l": d1, "p": []}, "rv": {"discr": {"l": x["l"], "p": []}, "adt": OPT}, "s": s_})
+                b["term"] = {"k": "switch", "op": {"move": {"l": d1, "p": []}}, "ty": "isize", "targets": [[nd, b_none], [sd, b_second]], "otherwise": b_unreach, "s": s_}
+                done += 1
+                todo = "again"
+                break
             lz = LAZY.get(sp_)
             if lz is not None and len(t["args"]) == 2:
                 x = t["args"][0].get("move") or t["args"][0].get("copy")
@@ -580,6 +696,53 @@ def fold_constant_switches(f):
                     cdef[st["place"]["l"]] = vdef[sl]
                 elif not src["p"] and sl in copyof and ndefs.get(sl) == 1 and copyof[sl] in vdef and ndefs.get(copyof[sl]) == 1 and copyof[sl] not in mutref and copyof[sl] > argc and sl not in mutref:
                     cdef[st["place"]["l"]] = vdef[copyof[sl]]
+    # a variant stored in a field of a plain value built once (`let plan = RolePlan { vote: None, .. }; .. match plan.vote`):
+    # the discriminant read of `plan.vote` (through plain moves of `plan`) is the stored variant's
+    aggdef = {}
+    for b in B:
+        for st in b["stmts"]:
+            if st["k"] == "assign" and not st["place"]["p"] and st["rv"].get("agg") in ("adt", "tuple") and not _is_enum_agg(st["rv"]):
+                aggdef[st["place"]["l"]] = st["rv"]
+
+    def stable(l):
+        return ndefs.get(l) == 1 and l not in mutref and l > argc
+
+    def field_variant(l, proj, depth=0):
+        if depth > 8 or not stable(l):
+            return None
+        if not proj:
+            if l in vdef:
+                return vdef[l]
+            if l in copyof:
+                return field_variant(copyof[l], proj, depth + 1)
+            return None
+        if l in copyof:
+            return field_variant(copyof[l], proj, depth + 1)
+        rv = aggdef.get(l)
+        p0 = proj[0]
+        if rv is None or not isinstance(p0, dict) or "f" not in p0 or p0.get("v") is not None:
+            return None
+        if rv["agg"] == "tuple":
+            i = p0["f"]
+        else:
+            names = rv.get("fields", [])
+            if p0.get("n") not in names:
+                return None
+            i = names.index(p0["n"])
+        if i >= len(rv.get("ops", [])):
+            return None
+        op = rv["ops"][i]
+        src = op.get("move") or op.get("copy")
+        if src is None or src["p"]:
+            return None
+        return field_variant(src["l"], proj[1:], depth + 1)
+    for b in B:
+        for st in b["stmts"]:
+            if st["k"] == "assign" and not st["place"]["p"] and "discr" in st["rv"] and st["rv"]["discr"]["p"] and st["place"]["l"] not in cdef:
+                src = st["rv"]["discr"]
+                v_ = field_variant(src["l"], src["p"])
+                if v_ is not None:
+                    cdef[st["place"]["l"]] = v_
     const = {l: v for l, v in cdef.items() if ndefs.get(l) == 1 and l not in mutref and l > argc}
     for _ in range(4):
         for l, srcl in copyof.items():
